@@ -73,5 +73,6 @@ def bdecode(data: bytes, allow_non_dict_return: typing.Optional[bool] = False) -
         if not allow_non_dict_return and not isinstance(result, dict):
             raise ValueError(f'expected dict, got {type(result)}')
         return result
-    except (ValueError, TypeError) as err:
+    except (ValueError, TypeError, IndexError, RecursionError) as err:
+        # IndexError: the data ends inside a value; RecursionError: nested too deeply to be a DHT message
         raise DecodeError(err)
